@@ -825,6 +825,21 @@ class Gen(object):
         path = tgt.get_path()
         return {"op": "set_link", "x": self.ref(x), "path": path}
 
+    def g_set_repository(self):
+        """A Document or Section is given a terminology that loads: a document saved earlier in
+        this run.  State-directed: documents get different files, so that Sections of one type
+        inherit different terminologies."""
+        xml = [i for i, ent in enumerate(self.U.files) if ent["backend"] == "xml"]
+        if not xml:
+            return self.g_save() if hasattr(self, "g_save") else None
+        conts = [c for c in self.conts() if not c.repository] or self.conts()
+        x = self.pick(conts)
+        if x is None:
+            return None
+        used = [c.repository for c in self.conts() if c.repository]
+        fresh = [i for i in xml if not any(str(u).endswith(self.U.files[i]["path"]) for u in used)]
+        return {"op": "set_repository", "x": self.cref(x), "f": self.pick(fresh or xml)}
+
     def g_set_include(self):
         """include of a Section of a document saved earlier in this run (file: URL of the store)."""
         secs = [s for s in self.secs() if s.parent is not None]
